@@ -1,4 +1,5 @@
 """Run a line-protocol executable over a list of cases, surviving crashes of individual cases."""
+import resource
 import signal
 import subprocess
 import threading
@@ -21,7 +22,16 @@ def _classify(rc, stderr):
     return KIND_EXIT
 
 
-def run_cases(exe, cases, timeout=600, env=None, args=()):
+def _big_stack():
+    # extracted OCaml code recurses non-tail on long lists (64 KiB strings): give it the whole hard limit
+    try:
+        soft, hard = resource.getrlimit(resource.RLIMIT_STACK)
+        resource.setrlimit(resource.RLIMIT_STACK, (hard, hard))
+    except (ValueError, OSError):
+        pass
+
+
+def run_cases(exe, cases, timeout=600, env=None, args=(), big_stack=False):
     """cases: list of list[int].  Returns (outputs: list[list[int]], crashes: {index: stderr_excerpt})."""
     outputs = [None] * len(cases)
     crashes = {}
@@ -29,7 +39,7 @@ def run_cases(exe, cases, timeout=600, env=None, args=()):
     while start < len(cases):
         payload = "".join(" ".join(map(str, c)) + "\n" for c in cases[start:]).encode()
         proc = subprocess.Popen([str(exe)] + list(args), stdin=subprocess.PIPE, stdout=subprocess.PIPE,
-                                stderr=subprocess.PIPE, env=env)
+                                stderr=subprocess.PIPE, env=env, preexec_fn=_big_stack if big_stack else None)
 
         def feed():
             try:
